@@ -292,6 +292,6 @@ def units(ctx):
         McUnit(SUB, "KVStoreConcMC", "per_entry", name="ctl-iterate-per-entry", expect="IterSnapshot", deadlock=True),
         # the real store: free-running + forced histories (race build), validated by TLC with silent Lin steps
         LinUnit("KVStoreConc:histories",
-                args=["-histories", 300, "-forced", 60, "-bursts", 20],
-                thorough_args=["-histories", 5000, "-forced", 600, "-bursts", 200]),
+                args=["-histories", 300, "-forced", 100, "-bursts", 20],
+                thorough_args=["-histories", 5000, "-forced", 1000, "-bursts", 200]),
     ]
